@@ -161,7 +161,10 @@ class PathSim:
         f = self.f
         start = State()
         self.at[0] = [start]
-        work = [(0, start)]
+        self._drain([(0, start)])
+
+    def _drain(self, work):
+        f = self.f
         steps = 0
         while work:
             bb, st0 = work.pop()
@@ -304,6 +307,23 @@ class PathSim:
         st.kill(dest)
         if res is not None:
             st.facts[dest] = res
+
+    def forward_from(self, bb):
+        """blocks reachable from `bb` on paths that are variant/flag-consistent with the states in
+        which `bb` itself is reached (e.g. the epilogue actually executed after a given assignment)"""
+        seeds = self.at.get(bb, [])
+        saved_at, saved_edges = self.at, self.edges_taken
+        self.at, self.edges_taken = {}, set()
+        try:
+            f = self.f
+            work = []
+            for s in seeds:
+                self.at.setdefault(bb, []).append(s)
+                work.append((bb, s))
+            self._drain(work)
+            return set(self.at)
+        finally:
+            self.at, self.edges_taken = saved_at, saved_edges
 
     # ---- queries
     def reachable(self, bb):
